@@ -6,10 +6,10 @@
 wt="$1"; out="$2"; log="$out/confirm.log"
 export CARGO_NET_OFFLINE=true
 cd "$wt" || exit 2
-demo_cmd=$(python3 -c "import json;print(json.load(open('$out/meta.json'))['demo_cmd'])")
+demo_cmd=$(python3 -c "import json;print(json.load(open('$out/meta.json'))['demo_cmd'].replace('cp demo/','cp $out/demo/'))")
 {
 echo "== confirm $(basename "$out") at $(git rev-parse --short HEAD)"
-git stash -q --include-untracked 2>/dev/null; git stash drop -q 2>/dev/null   # agent leftovers gone: clean checkout
+git checkout -q -- .   # tracked files back to the commit; the agent's untracked demo files stay in place
 git status --short | head -3
 git apply --check "$out/patch.diff" && echo "patch applies to clean checkout" || { echo "PATCH DOES NOT APPLY"; exit 3; }
 git apply "$out/patch.diff"; git diff --stat | tail -3
